@@ -5,7 +5,9 @@ import (
 	"encoding/hex"
 	"fmt"
 	"os"
+	"strconv"
 	"strings"
+	"time"
 )
 
 // ---- deterministic PRNG (splitmix64); every random choice derives from one state ----
@@ -110,7 +112,7 @@ func emitS(cmd string, as []string) string {
 	if os.Getenv("VERIF_TRACE") != "" { // debugging aid: show the record before executing it (a hang is then attributable)
 		fmt.Fprintln(os.Stderr, "TRACE", cmd, strings.Join(as, " "))
 	}
-	impl := execFor(cmd).Exec(cmd, as)
+	impl := execWatched(cmd, as)
 	var sb strings.Builder
 	sb.WriteString(cmd)
 	for _, a := range as {
@@ -122,6 +124,45 @@ func emitS(cmd string, as []string) string {
 	sb.WriteByte('\n')
 	out.WriteString(sb.String())
 	return impl
+}
+
+// execWatched runs one record under a deadline (VERIF_RECORD_TIMEOUT seconds, default 120): a record whose execution does
+// not come back is reported as `hang:<seconds>s` (the property checks say "never hangs"); the stuck goroutine cannot be
+// killed, so after the second hang the remaining records are not run: the record stream is flushed and the process
+// exits with status 4 (the orchestrator reports that as well).  Families with their own per-script watchdogs (net,
+// life, gorwp, conc) finish far below the deadline.
+var hangCount int
+
+func execWatched(cmd string, as []string) string {
+	limit := 120
+	if v := os.Getenv("VERIF_RECORD_TIMEOUT"); v != "" {
+		if n, err := strconv.Atoi(v); err == nil && n > 0 {
+			limit = n
+		}
+	}
+	ex := execFor(cmd)
+	done := make(chan string, 1)
+	go func() { done <- ex.Exec(cmd, as) }()
+	select {
+	case r := <-done:
+		return r
+	case <-time.After(time.Duration(limit) * time.Second):
+		hangCount++
+		if hangCount >= 2 {
+			var sb strings.Builder
+			sb.WriteString(cmd)
+			for _, a := range as {
+				sb.WriteByte(' ')
+				sb.WriteString(a)
+			}
+			sb.WriteString(fmt.Sprintf(" | hang:%ds\n", limit))
+			out.WriteString(sb.String())
+			out.Flush()
+			fmt.Fprintln(os.Stderr, "harness: second record that does not return; giving up")
+			os.Exit(4)
+		}
+		return fmt.Sprintf("hang:%ds", limit)
+	}
 }
 
 // replay: re-execute the input half of every record of a file
